@@ -2876,6 +2876,18 @@ class Order:
         if descending is None:
             descending = False
 
+        # markers have to be at the top of the expression tree
+        if isinstance(expr, ColExpr):
+            for node in expr.iter_subtree_postorder():
+                if isinstance(node, ColFn) and isinstance(node.op, Marker):
+                    raise TypeError(
+                        f"invalid usage of `{node.op.name}` in a column expression.\n"
+                        "note: This marker function can only be used in arguments to the "
+                        "`arrange` verb or the `arrange=` keyword argument to window "
+                        "functions. Furthermore, all markers have to be at the top of the "
+                        "expression tree (i.e. cannot be nested inside a column function)."
+                    )
+
         return Order(expr, descending, nulls_last)
 
     def ast_repr(self, depth: int = -1):
